@@ -235,6 +235,12 @@ class NP:
     sqrt = staticmethod(_elementwise('sqrt'))
     sinc = staticmethod(_elementwise('sinc'))
 
+    def log1p(self, x, *a, **kw):
+        return NP.log(x + 1.0, *a, **kw)
+
+    def expm1(self, x, *a, **kw):
+        return NP.exp(x, *a, **kw) - 1.0
+
 
 np = NP()
 
